@@ -257,6 +257,22 @@ impl<K: Eq + Hash + Ord + Clone, V> HashIndex<K, V> {
         self.len() == 0
     }
 
+    /// See [`scc::HashIndex::insert_sync`].
+    pub fn insert_sync(&self, key: K, value: V) -> Result<(), (K, V)> {
+        self.step("index.insert");
+        match &self.real {
+            Some(real) => real.insert_sync(key, value),
+            None => {
+                let mut model = self.model.lock().expect("model lock");
+                if model.map.contains_key(&key) {
+                    return Err((key, value));
+                }
+                model.map.insert(key, Arc::new(value));
+                Ok(())
+            }
+        }
+    }
+
     /// See [`scc::HashIndex::remove_sync`].
     pub fn remove_sync(&self, key: &K) -> bool {
         self.step("index.remove");
